@@ -76,6 +76,7 @@ type c18Run struct {
 	wpos       uint64 // bytes accepted so far
 	closedAt   int
 	closeStart int
+	faultStart int // seq number at which the file fault (op X) began, 0: none
 	maxW       uint64
 	peek       bool // read the write position from the store (only when executions are serialised)
 	tmp        *os.File
@@ -219,6 +220,15 @@ func (run *c18Run) do(thread int, op string) {
 		if run.closedAt == 0 {
 			run.closedAt = run.seq + 1
 		}
+	case 'X':
+		// environment fault: the file under a file-backed backlog stops working (its handle is
+		// closed underneath the backlog); no-op for the memory backend
+		if run.faultStart == 0 {
+			run.faultStart = e.Start
+		}
+		if run.tmp != nil {
+			run.tmp.Close()
+		}
 	default:
 		panic("bad op " + op)
 	}
@@ -248,6 +258,8 @@ func (run *c18Run) judge() (string, string) {
 	for _, e := range run.events {
 		afterClose := closedEnd != 0 && e.Start > closedEnd
 		mayBeClosed := run.closeStart != 0 && e.End > run.closeStart
+		// after the file fault a read or write may fail with the I/O error (never with wrong bytes)
+		ioFault := run.sc.File && run.faultStart != 0 && e.End > run.faultStart && strings.HasPrefix(e.Err, "other:")
 		switch e.Op[0] {
 		case 'W':
 			k := int(c18Atoi(e.Op[1:]))
@@ -257,7 +269,7 @@ func (run *c18Run) judge() (string, string) {
 				}
 				continue
 			}
-			if e.Err != "" && !mayBeClosed {
+			if e.Err != "" && !mayBeClosed && !ioFault {
 				return "write-error", fmt.Sprintf("Write(%d) failed with %q", k, e.Err)
 			}
 			if e.Err == "" && e.N != k {
@@ -301,6 +313,7 @@ func (run *c18Run) judge() (string, string) {
 				if !mayBeClosed {
 					return "spurious-closed", fmt.Sprintf("%s fails with %q before any Close", e.Op, e.Err)
 				}
+			case ioFault:
 			default:
 				return "read-error", fmt.Sprintf("%s fails with %q", e.Op, e.Err)
 			}
@@ -462,6 +475,18 @@ func c18Scenarios(capn int, file bool) []c18Scenario {
 	}
 }
 
+// c18FaultScenarios: the file under a file-backed backlog fails (environment answer "I/O error")
+// before the backlog is closed; Close may report the error, but it still ends every waiting reader.
+func c18FaultScenarios(capn int) []c18Scenario {
+	mk := func(name string, th ...[]string) c18Scenario {
+		return c18Scenario{Name: name, Cap: capn, File: true, Threads: th}
+	}
+	return []c18Scenario{
+		mk("file fails, close | readers wait at the write position", []string{"W1", "X", "C"}, []string{"A1@1"}, []string{"N", "r4", "V"}),
+		mk("file fails, close with error | reader waits, later calls", []string{"W2", "X", "E", "W1", "D"}, []string{"A2@2", "A1@0", "N"}),
+	}
+}
+
 // c18SeqWord: sequential words against the reference log (ops that would block are skipped).
 func c18SeqWord(capn int, file bool, word []string) string {
 	run := c18New(c18Scenario{Cap: capn, File: file})
@@ -532,6 +557,7 @@ func TestVerif_C18(t *testing.T) {
 		scs = append(scs, c18Scenarios(FileSizeAlign, true)[:3]...)
 		scs = append(scs, c18Scenarios(3*FileSizeAlign, true)[:3]...)
 	}
+	scs = append(scs, c18FaultScenarios(FileSizeAlign)...)
 	var idx int64
 	for _, sc := range scs {
 		sc := sc
